@@ -11,7 +11,8 @@ Operation = (clock advance in ms, name, argument); the clock advance happens fir
     x clock advance in {0, 10, 50, 200, 2000} ms
 Configuration = (max, bar width, format, verbosity, min seconds between redraws, output kind).
 Output kinds: "ansi" Output(AnsiFormatter(forced=True)), "plain" Output(PlainFormatter()), "section"
-(a SectionOutput of a forced-ANSI output, COLUMNS=20, a sentinel row above), "quiet" (ANSI + set_quiet).
+(a SectionOutput of a forced-ANSI output, COLUMNS=20, a sentinel row above), "quiet" / "quiet-plain" /
+"quiet-section" (the same three after set_quiet(True)).
 What is enumerated per tier is said in main() (PARTS) and written to the evidence.
 
 Oracle (only what the statement demands; see "not demanded" below):
@@ -252,15 +253,16 @@ def build(cfg):
     st = St()
     st.stream = _REC()
     kind = cfg["out"]
-    if kind == "plain":
+    base = {"quiet": "ansi", "quiet-plain": "plain", "quiet-section": "section"}.get(kind, kind)
+    if base == "plain":
         out = Output(st.stream, PlainFormatter())
     else:
         out = Output(st.stream, AnsiFormatter(forced=True))
-        if kind == "section":
+        if base == "section":
             st.parent = out
             out = out.section()
-        elif kind == "quiet":
-            out.set_quiet(True)
+    if kind.startswith("quiet"):
+        out.set_quiet(True)
     if cfg["verbosity"]:
         from clikit.api.io import flags
         out.set_verbosity({1: flags.VERBOSE, 2: flags.VERY_VERBOSE, 3: flags.DEBUG}[cfg["verbosity"]])
@@ -427,7 +429,7 @@ class Spec(object):
         text = "".join(w for w, _ in ws)
         if any(t != clock.CLOCK.now for _, t in ws):
             raise RuntimeError("engine error: a write carries a time different from the virtual now")
-        if kind == "quiet":
+        if kind.startswith("quiet"):
             if text:
                 V.append(report.viol("quiet:bytes-written", "%s wrote to a quiet output" % name, None, "", text))
             return V
@@ -628,8 +630,15 @@ def run_history(cfg, hist):
 
 def ramp_histories(m):
     """Sweep: the single operation set_progress(s) for every s in 0..max+2 (every (step, max) pair drawn directly).
+    Finish probes: start, advance(k) after each clock advance, finish / advance(k), finish, display.
     Ramp: start, then advance by the stride until the maximum is passed (unknown maximum: 12 steps), then finish."""
     out = [[(0, "set_progress", s)] for s in range(0, (m if m else 12) + 3)]
+    # three-operation histories around finish (also covered by the BFS parts; kept here so that they are executed even
+    # when a BFS share is cut short by another defect, and reported with the shortest history)
+    for dt in CLOCKS:
+        for k in (1, 3):
+            out.append([(0, "start", None), (dt, "advance", k), (0, "finish", None)])
+            out.append([(dt, "advance", k), (0, "finish", None), (0, "display", None)])
     for stride in (1, 3):
         for dt in CLOCKS:
             n = (m if m else 12) // stride + 2
@@ -667,7 +676,6 @@ def run_nodedup(item):
         nxt = []
         for h in level:
             st = build(cfg)
-            bad = False
             for op in h[:-1]:
                 spec.apply(st, op)
             vs = spec.apply(st, h[-1])
@@ -717,11 +725,12 @@ def plan(tier, seed):
         # quick: every maximum and every width, 6 of the 12 pairs
         mw = [(0, 4), (1, 1), (3, 4), (3, 28), (10, 1), (10, 28)]
     broad = [C(m, w, f, o, mn, v) for (m, w) in mw for (f, v) in fmts for mn in (0, 0.1) for o in OUTS3]
-    broad += [C(m, 4, f, "quiet", 0.1, v) for m in (0, 3) for (f, v) in fmts]
+    broad += [C(m, 4, f, q, 0.1, v) for m in (0, 3) for (f, v) in fmts for q in ("quiet", "quiet-plain", "quiet-section")
+              if q == "quiet" or (f, v) in (("default", 0), ("two", 0))]
     xw = EXTRA_WIDTHS[seed % len(EXTRA_WIDTHS)]  # VERIF_SEED rotates ONE extra bar width into the broad part
     broad += [C(m, xw, "default", o, 0.1, 0) for m in (3, 10) for o in OUTS3]
     part("broad", "configuration product (quick: 6 of 12 max x width pairs) x {ansi,plain,section} x min {0,0.1} x 5 formats "
-                  "(+ quiet for max {0,3}, + rotated width %d); all operations x all clock advances" % xw, broad, depth=2)
+                  "(+ quiet outputs for max {0,3}, + rotated width %d); all operations x all clock advances" % xw, broad, depth=2)
     # ---- broad-3: one level deeper on a covering subset
     b3 = [C(3, 4, f, o, 0.1, v) for (f, v) in [("default", 0), ("msg", 0), ("two", 0)] for o in OUTS3]
     if T:
@@ -866,7 +875,8 @@ def main():
             raise RuntimeError("engine error: deduplication cross-check %s failed: %r (sigs dedup=%r nodedup=%r uncapped=%r)"
                                % (name, res, sorted(d["sigs"]), sorted(n["sigs"]), sorted(u["sigs"])))
     tot_s = tot_t = capped = 0
-    for p in parts + [dict(name="ramp", what="sweep: the one-operation history set_progress(s) for every s in 0..max+2; ramp: start, advance by 1 or 3 at a "
+    for p in parts + [dict(name="ramp", what="sweep: the one-operation history set_progress(s) for every s in 0..max+2; finish probes: start,advance(k),finish "
+                           "and advance(k),finish,display for k in {1,3} x clock advance; ramp: start, advance by 1 or 3 at a "
                            "fixed clock advance until past the maximum, finish: one long history per (max, stride, clock advance); "
                            "max in {0,1,3,10,50,200} x width {4,28} x {ansi,plain} x min {0,0.1}", cfgs=ramp_cfgs,
                            clocks=CLOCKS, opset="ramp", depth=0, split=False)]:
